@@ -194,7 +194,11 @@ pub fn fault_case() -> BoxedStrategy<FaultCase> {
     ];
     let cfg = (proptest::sample::select(vec!["String".to_string(), "U64".to_string(), "VecU8".to_string()]), prop_oneof![Just(1u64), Just(2), Just(3), Just(100)], any::<bool>(), any::<bool>(), any::<bool>())
         .prop_map(|(kt, n, asyn, scan, verify)| Cfg { kt, n, asyn, scan, verify });
-    (cfg, vec(op, 4..=12), prop::bool::weighted(0.3)).prop_map(|(cfg, ops, enospc)| FaultCase { cfg, ops, enospc, only_k: None }).boxed()
+    let pre = prop_oneof![
+        2 => Just(Vec::<Step>::new()),
+        3 => vec(prop_oneof![6 => (0..keys, (0u8..3).prop_map(C::P)).prop_map(|(k, c)| Step::Put { k, c, cuts: vec![] }), 1 => (0..keys).prop_map(|k| Step::Remove { k }), 1 => Just(Step::Checkpoint)], 1..7),
+    ];
+    (cfg, vec(op, 4..=12), prop::bool::weighted(0.3), pre).prop_map(|(cfg, ops, enospc, pre_ops)| FaultCase { cfg, ops, enospc, only_k: None, pre_ops }).boxed()
 }
 
 // ---------------------------------------------------------------------------------------------
